@@ -24,7 +24,10 @@ ASSUMPTIONS = ["process death only (os._exit skips all cleanup; written bytes st
 SHARD_TIMEOUT = {"quick": 900, "thorough": 5400}
 
 COMPONENTS = ["file", "xor", "fernet", "store_file_nested", "store_file_flat", "filestore"]
-CACHE_OPS = ["store_fresh", "overwrite_same_type", "overwrite_other_type", "store_metadata", "remove"]
+CACHE_OPS = ["store_fresh", "overwrite_same_type", "overwrite_other_type", "store_metadata", "remove",
+             # the entry consists of 'ready' metadata only (its data file is gone, e.g. after an earlier crash between the
+             # two unlinks of a removal, or metadata was filed without data) and is then stored
+             "store_over_ready_metadata", "store_over_ready_metadata_other_type"]
 STORE_OPS = ["store_fresh", "overwrite", "store_metadata", "remove", "removedir_recursive"]
 VTYPES = ["text", "bytes", "dict", "list", "int", "frame", "bigtext"]
 
@@ -152,9 +155,15 @@ def prepare(comp, op, vt, d):
     else:
         cache_store(obj, BY, "bystander value", "BY")
         cache_store(obj, BY2, "bystander2 value", "BY2")
-        if op != "store_fresh":
+        if op != "store_fresh" and not op.startswith("store_over_ready_metadata"):
             old = value(vt if op != "overwrite_other_type" else other_type(vt), "old")
             cache_store(obj, KEY, old, "OLD")
+        if op in ("store_over_ready_metadata", "store_over_ready_metadata_other_type"):
+            ghost = value(vt if op == "store_over_ready_metadata" else other_type(vt), "old")
+            obj.remove(KEY)
+            cache_store_metadata(obj, KEY, ghost, "OLD")
+            new = value(vt, "new")
+            return None, new, lambda o: cache_store(o, KEY, new, "NEW")
         if op in ("store_fresh", "overwrite_same_type", "overwrite_other_type"):
             new = value(vt, "new")
             return old, new, lambda o: cache_store(o, KEY, new, "NEW")
@@ -301,6 +310,8 @@ def classify(comp, obs, old, new, op):
     if old is not None and new is not None and not (is_old and is_new):
         if (is_new and marker == "OLD") or (is_old and marker == "NEW"):
             return "complete value with metadata of the other version"
+    if old is None and is_new and marker == "OLD":
+        return "complete value with metadata of the other version"
     return None
 
 
